@@ -23,12 +23,20 @@ META = {
                    'subsets: the row carries one value per header column, value j being the figure printed on the report line of output '
                    'j of THAT iteration; the (name, value) pairs recorded in the row are exactly those appended to the simulated input, '
                    'in order; temporary files are removed; a failing iteration writes nothing and leaves every other row unchanged. The '
-                   'summarising half of main() runs on symbolic rows with exact min/max/median/mean/std encodings (statistics units).',
-    'bounds': {'quick': {'outputs': 3, 'iterations': [1, 2], 'statistics: rows x outputs': [(2, 1), (3, 2)]},
-               'thorough': {'outputs': 3, 'iterations': [1, 2, 3], 'statistics: rows x outputs': [(2, 1), (3, 2), (4, 2)]}},
-    'outside': ['torn / interleaved rows under lock contention: that is the pylocker protocol plus OS O_APPEND semantics (library / kernel behaviour) - NOT decided',
-                'plots and HTML output', 'more rows / outputs than the bound'],
-    'assumptions': ['a rendered number contains no comma, colon, semicolon, parenthesis or newline', 'Locker grants the lock (contention not modelled)'],
+                   'summarising half of main() runs on symbolic rows with exact min/max/median/mean/std encodings (statistics units). '
+                   'Contention units: 2 (thorough: 3) workers run the real work_package as baton-passing threads under a symbolic schedule '
+                   '(a fresh solver Boolean decides which runnable worker continues at every interleaving point: before the lock request, '
+                   'after the grant, between the two chunks of a row write, before the release); the lock is the pylocker contract keyed '
+                   'by pass, uuid draws are pairwise-distinct solver integers, and pass equality is decided by the solver; for every '
+                   'schedule: rows intact, mutual exclusion, no worker stuck. Counterexamples are replayed with two real threads on the '
+                   'real pylocker Locker and a real file.',
+    'bounds': {'quick': {'outputs': 3, 'iterations': [1, 2], 'statistics: rows x outputs': [(2, 1), (3, 2)], 'concurrent workers': [2], 'interleaving points per worker': 5},
+               'thorough': {'outputs': 3, 'iterations': [1, 2, 3], 'statistics: rows x outputs': [(2, 1), (3, 2), (4, 2)], 'concurrent workers': [2, 3], 'interleaving points per worker': 5}},
+    'outside': ['the internals of pylocker.acquire_lock (its own check-write-verify protocol on the lock file) and lock time-outs (a worker that waits longer than 10 s drops its row): the lock is modelled by its contract',
+                'more than 3 concurrent workers', 'plots and HTML output', 'more rows / outputs than the bound'],
+    'assumptions': ['a rendered number contains no comma, colon, semicolon, parenthesis or newline',
+                    'pylocker contract: acquire(pass) is an atomic test-and-set granted iff no lock is held or the held lock carries the same pass; release(pass) removes only a lock with that pass',
+                    'uuid.uuid1()/uuid4() never return the same value twice', 'a row write may reach the file in two chunks (no atomicity of buffered appends is assumed)'],
     'stubs': ['as C13; pandas / matplotlib / ProcessPoolExecutor / json replaced by in-memory stand-ins in the statistics units'],
 }
 
@@ -172,18 +180,25 @@ def units(tier, seed):
     for K in META['bounds'][tier]['iterations']:
         us.append({'harness': 'rows', 'K': K, 'code': 'GEOPHIRESv3.py'})
         us.append({'harness': 'rows', 'K': K, 'code': 'hip_ra_x.py'})
-    from . import c14stats
+    from . import c14stats, c14lock
     us += c14stats.units(tier)
+    us += c14lock.units(tier)
     return us
 
 
 def run_unit(unit):
     if unit['harness'] == 'rows':
         yield from run_rows_unit(unit)
+    elif unit['harness'] == 'contention':
+        from . import c14lock
+        yield from c14lock.run_unit(unit)
     else:
         from . import c14stats
         yield from c14stats.run_unit(unit)
 
 
 def replay(cex):
+    if cex.get('config', {}).get('harness') == 'contention':
+        from . import c14lock
+        return c14lock.replay_real(2)
     return replay_missing_output()
